@@ -26,6 +26,17 @@ func (oracleC02) Step(x *OCtx, t *Trans) []Violation {
 			x.Wit("C02:tax-truncates-on-fee-1")
 		}
 	}
+	// a response of the designated provider that arrives in time (up to and including the request's expiry block) is the
+	// one settlement of that request: it cannot be refused (a refusal leaves the fee to be refunded at expiry instead)
+	if a := t.Act; kind == "respond" && t.Res.Stateless == nil && t.Res.Panic == "" {
+		if r := t.Pre.Reqs[a.Req]; r != nil && t.Pre.ActiveByID[a.Req] && hexs(r.Provider) == hexs(a.Signer) && t.Pre.H <= r.ExpirationHeight {
+			x.Wit(fmt.Sprintf("C02:in-time-response-at-%d-blocks-before-expiry", r.ExpirationHeight-t.Pre.H))
+			if !t.Res.OK() {
+				out = append(out, viol("C02", "in-time-response-settles-the-request", kind, fmt.Sprintf("refused/%d-before-expiry", r.ExpirationHeight-t.Pre.H),
+					fmt.Sprintf("the designated provider answered pending request %s at height %d (expires at %d) and was refused: %s", shortReq(a.Req), t.Pre.H, r.ExpirationHeight, t.Res.ErrString())))
+			}
+		}
+	}
 	if len(L.Issued) > 0 {
 		x.Wit("C02:batch-issued")
 	}
